@@ -20,7 +20,7 @@ CONSTANTS
  MaxBlockTxs = 0
  MaxReorgTxs = 0
  Standalone = TRUE
- DisconnectEvicts = FALSE
+ DisconnectEvicts = TRUE
  Script <- U_Script
 INIT Init
 NEXT Next
